@@ -30,6 +30,7 @@ type settings struct {
 	NoDebug  bool   `json:"nodebug,omitempty"`
 	Custom   bool   `json:"custom,omitempty"`
 	Listener bool   `json:"listener,omitempty"`
+	LMode    string `json:"lmode,omitempty"` // with Listener: "" every function, "nil" no function, "subset" every other function
 	COD      bool   `json:"cod,omitempty"`
 }
 
@@ -80,7 +81,11 @@ func (s settings) toggles() string {
 		t = append(t, "custom")
 	}
 	if s.Listener {
-		t = append(t, "listener")
+		if s.LMode == "" {
+			t = append(t, "listener")
+		} else {
+			t = append(t, "listener-"+s.LMode)
+		}
 	}
 	if s.COD {
 		t = append(t, "cod")
@@ -139,11 +144,19 @@ func (m *movMem) Free() {
 // functions are listened too; with hostOnly it returns a listener for host functions only.
 type lstRec struct {
 	hostOnly                   bool
+	mode                       string // "" every function, "nil" none (the factory declines every function), "subset" every other function
 	made, before, after, abort int
 }
 
 func (l *lstRec) NewFunctionListener(def api.FunctionDefinition) experimental.FunctionListener {
-	if l.hostOnly && def.GoFunction() == nil {
+	switch {
+	case l.mode == "nil":
+		return nil
+	case l.mode == "subset":
+		if def.Index()%2 == 1 {
+			return nil
+		}
+	case l.hostOnly && def.GoFunction() == nil:
 		return nil
 	}
 	l.made++
@@ -187,7 +200,7 @@ func newRT(p *program, s settings, cache wazero.CompilationCache) *rtRun {
 	ctx, cancel := context.WithCancel(context.Background()) // cancellable but never cancelled while the guest runs
 	r.cancel = cancel
 	if s.Listener {
-		r.lst = &lstRec{hostOnly: p.ListenHostOnly}
+		r.lst = &lstRec{hostOnly: p.ListenHostOnly, mode: s.LMode}
 		ctx = experimental.WithFunctionListenerFactory(ctx, r.lst)
 	}
 	if s.Alloc {
